@@ -58,7 +58,9 @@ pub fn generate(out: &mut Out, prop: &str, thorough: bool, seed: u64) {
             // the client half of the property: the call returns the value the reply frame carries
             // (C06's scenarios), the typed bit reads exactly the requested count (C20's)
             client::gen_c06(out, &mut rng, false);
-            client::gen_c20(out, &mut rng, false)
+            client::gen_c20(out, &mut rng, false);
+            // the third transport: the serial RTU server over a pty ("over all three transports")
+            netgen::gen_serial_server(out, &mut rng, if thorough { 120 } else { 12 })
         }
         "C03" => codec::gen_c03(out, &mut rng, thorough),
         "C04" => stream::gen_c04(out, &mut rng, thorough),
@@ -71,7 +73,10 @@ pub fn generate(out: &mut Out, prop: &str, thorough: bool, seed: u64) {
             server::gen_c07(out, &mut rng, thorough);
             netgen::gen_serial_server(out, &mut rng, if thorough { 200 } else { 12 })
         }
-        "C08" => codec::gen_c08(out, &mut rng, thorough),
+        "C08" => {
+            codec::gen_c08(out, &mut rng, thorough);
+            codec::gen_c08_framed(out, &mut rng, thorough)
+        }
         "C09" => codec::gen_c09(out, &mut rng, thorough),
         "C10" => client::gen_c10(out, &mut rng, thorough),
         "C11" => stream::gen_c11(out, &mut rng, thorough),
@@ -99,7 +104,10 @@ pub fn generate(out: &mut Out, prop: &str, thorough: bool, seed: u64) {
         }
         "C17" => netgen::gen_c17(out, &mut rng, thorough),
         "C18" => netgen::gen_c18(out, &mut rng, thorough),
-        "C19" => codec::gen_c19(out, &mut rng, thorough),
+        "C19" => {
+            codec::gen_c19(out, &mut rng, thorough);
+            codec::gen_c19_conversions(out, &mut rng, thorough)
+        }
         "C20" => client::gen_c20(out, &mut rng, thorough),
         _ => panic!("no generator for {prop}"),
     }
@@ -199,7 +207,8 @@ fn judge(out: &mut Out, l: &str, r: &str) {
         "C02" => {
             client::mon_c02(out, &l, &r);
             client::mon_c06(out, &l, &r);
-            client::mon_c20(out, &l, &r)
+            client::mon_c20(out, &l, &r);
+            netgen::mon_c18(out, &l, &r)
         }
         "C03" => codec::mon_c03(out, &l, &r),
         "C04" => stream::mon_c04(out, &l, &r),
@@ -212,7 +221,10 @@ fn judge(out: &mut Out, l: &str, r: &str) {
             server::mon_c07(out, &l, &r);
             netgen::mon_c18(out, &l, &r)
         }
-        "C08" => codec::mon_c08(out, &l, &r),
+        "C08" => {
+            codec::mon_c08(out, &l, &r);
+            stream::mon_c05(out, &l, &r)
+        }
         "C09" => codec::mon_c09(out, &l, &r),
         "C10" => client::mon_c10(out, &l, &r),
         "C11" => stream::mon_c11(out, &l, &r),
@@ -230,7 +242,10 @@ fn judge(out: &mut Out, l: &str, r: &str) {
         }
         "C17" => netgen::mon_c17(out, &l, &r),
         "C18" => netgen::mon_c18(out, &l, &r),
-        "C19" => codec::mon_c19(out, &l, &r),
+        "C19" => {
+            codec::mon_c19(out, &l, &r);
+            codec::mon_c08(out, &l, &r)
+        }
         "C20" => client::mon_c20(out, &l, &r),
         _ => {}
     }
